@@ -5,6 +5,7 @@ a quadratic root selected by data-dependent branches and is NOT decided here (DE
 """
 import itertools
 
+from .. import poly
 from ..poly import Sym, mk_func
 from ..interp import Interp, Str, Tup, Opaque
 from ..poly import Sym
@@ -159,6 +160,170 @@ def check_root_guard(ck, fn, main_paths):
     ck.floor('paths that skip the root computation on a tested discriminant', n, 1)
 
 
+def check_steps_before_reversal(ck, fn, main_paths):
+    """D10 - on the paths that report a reversal (position = +-(2*s_rev - steps)) the number of
+    steps made before the reversal is s_rev = FLOOR(|C(T)| / 2^31), where C is the same
+    accumulator polynomial as in D3, C(t) = start + (r + a/2 - TRUNC(a/2))*t + a*t^2/2, taken at
+    the reversal tick T the code uses, and start is the (adjusted) start accumulator."""
+    q = fn.qualname
+    n = 0
+    seen = set()
+    for o, cut, mode in main_paths:
+        if not (isinstance(o.value, Tup) and len(o.value.items) == 3 and
+                isinstance(o.value.items[1], Sym)):
+            continue
+        pos = o.value.items[1]
+        fl = [a for a in pos.atoms() if a[0] == 'f' and a[1] == 'FLOOR']
+        if len(fl) != 1:
+            continue
+        srev = Sym(poly.Poly.atom(fl[0]))
+        lin = pos - pos.subs_atoms({fl[0]: Sym.const(0)})
+        k = lin / srev
+        rest = pos - lin
+        if not (k.is_const() and abs(k.const_value()) == 2 and
+                (rest == V('steps') or rest == -V('steps'))):
+            continue
+        key = (repr(pos), mode)
+        if key in seen:
+            continue
+        seen.add(key)
+        inner = fl[0][2][0]
+        at = inner.as_atom()
+        if at is not None and at[0] == 'f' and at[1] == 'ABS':
+            inner = at[2][0]
+        total = inner * TWO31
+        ticks = [a for a in total.all_atoms() if a[0] == 'f' and a[1] == 'FLOOR']
+        ok, why = False, 'no reversal tick found in %r' % (total,)
+        for t_at in ticks:
+            T = Sym(poly.Poly.atom(t_at))
+            for sg in (1, -1):
+                r, a = V('rate') * sg, V('accel') * sg
+                want = (r + a / 2 - mk_func('TRUNC', a / 2)) * T + a * T * T / 2
+                z = total - want
+                # sign of the whole total is irrelevant under ABS
+                for zz in (z, -total - want):
+                    if mode == 'clear':
+                        good = zz.is_const() and zz.const_value() in (0, )
+                    else:
+                        good = zz == V('accum') or zz == V('accum') - (TWO31 - 1)
+                    if good:
+                        ok = True
+            if not ok:
+                why = 'accumulator at the reversal is taken as %r' % (total,)
+        n += 1
+        ck.ob('C03-D10-steps-before-reversal', 'calculate_lm[%s]::%s' % (mode, repr(rest)), ok,
+              '%s: the steps made before the reversal are not FLOOR(|C(T)|/2^31) with the '
+              'accumulator polynomial C(t) = start + (r + a/2 - TRUNC(a/2))*t + a*t^2/2 of D3 at '
+              'the reversal tick T: %s' % (q, why[:400]), fn.loc(),
+              key='calculate_lm::steps-before-reversal')
+    ck.floor('reversal paths judged for steps before the reversal', n, 1)
+
+
+def check_root_positive(ck, fn, main_paths):
+    """D8b - a duration taken from a root of the quadratic is at least one tick: on every path
+    that returns CEIL(root) the path conditions bound that very root from below by a quantity
+    that is >= 0 (strict bound) or >= 1 (weak bound).  A bound below zero admits a duration of 0
+    ticks for a move that takes steps."""
+    q = fn.qualname
+    n = 0
+    undecided = []
+    for o, cut, mode in main_paths:
+        if not (isinstance(o.value, Tup) and len(o.value.items) == 3 and
+                isinstance(o.value.items[0], Sym)):
+            continue
+        t_f = motion.strip_int(o.value.items[0])
+        roots = [a for a in t_f.atoms() if a[0] == 'f' and a[1] == 'CEIL' and any(
+            b[0] == 'f' and b[1] == 'SQRT' for b in Sym(poly.Poly.atom(a)).all_atoms())]
+        if len(roots) != 1 or t_f != Sym(poly.Poly.atom(roots[0])):
+            continue
+        root = Sym(poly.Poly.atom(roots[0]))
+        conds = [motion.norm_path_cond(c_, t_) for c_, t_ in o.state.path]
+        conds = [c for c in conds if c is not None]
+
+        def lower(expr):
+            """A constant the path proves expr >= to, else None."""
+            if expr.is_const():
+                return expr.const_value()
+            at = expr.as_atom()
+            if at is not None and at[0] == 'f' and at[1] == 'MAX':
+                cs = [x.const_value() for x in at[2] if x.is_const()]
+                if cs:
+                    return max(cs)
+            best = None
+            for e, op in conds:
+                d = e - expr                 # expr + d op 0
+                if d.is_const() and op in ('>', '>='):
+                    lb = -d.const_value() + (1 if op == '>' and motion_int(expr) else 0)
+                    best = lb if best is None else max(best, lb)
+            return best
+
+        def motion_int(expr):
+            from ..poly import is_intvalued
+            return is_intvalued(expr)
+        best = None
+        for e, op in conds:
+            if roots[0] not in e.atoms():
+                continue
+            k = (e - e.subs_atoms({roots[0]: Sym.const(0)})) / root
+            if not (k.is_const() and k.const_value() != 0):
+                continue
+            g = -(e.subs_atoms({roots[0]: Sym.const(0)})) / k     # root  op'  g
+            op2 = op if k.const_value() > 0 else {'>': '<', '>=': '<=', '<': '>', '<=': '>=',
+                                                  '==': '==', '!=': '!='}[op]
+            if op2 not in ('>', '>='):
+                continue
+            lb = lower(g)
+            if lb is None:
+                continue
+            lb = lb + (1 if op2 == '>' else 0)      # the root is an integer (a ceiling)
+            best = lb if best is None else max(best, lb)
+        # reversal paths: the accepted root lies after the reversal tick T (the quadratic is
+        # solved for the phase after the reversal; T is the last tick of the initial phase)
+        pos = o.value.items[1]
+        if isinstance(pos, Sym) and any(a[0] == 'f' and a[1] == 'FLOOR' for a in pos.atoms()):
+            rel = None
+            for e, op in conds:
+                if roots[0] not in e.atoms():
+                    continue
+                others = [a for a in e.atoms() if a != roots[0]]
+                if len(others) != 1 or others[0][0] != 'f' or others[0][1] != 'FLOOR':
+                    continue
+                T = Sym(poly.Poly.atom(others[0]))
+                k = (e - e.subs_atoms({roots[0]: Sym.const(0)})) / root
+                m = (e - e.subs_atoms({others[0]: Sym.const(0)})) / T
+                c0 = e.subs_atoms({roots[0]: Sym.const(0), others[0]: Sym.const(0)})
+                if not (k.is_const() and m.is_const() and c0.is_const()
+                        and k.const_value() == -m.const_value() and k.const_value() != 0):
+                    continue
+                op2 = op if k.const_value() > 0 else {'>': '<', '>=': '<=', '<': '>', '<=': '>=',
+                                                      '==': '==', '!=': '!='}[op]
+                if op2 not in ('>', '>='):
+                    continue
+                # root - T + c0/k  op2  0   ->   root >= T - c0/k (+1 if strict)
+                gap = -c0.const_value() / k.const_value() + (1 if op2 == '>' else 0)
+                rel = gap if rel is None else max(rel, gap)
+            if rel is not None:
+                ck.ob('C03-D8-root-after-reversal',
+                      'calculate_lm[%s]::root-after-the-reversal-tick' % mode, rel >= 1,
+                      '%s accepts a root of the duration quadratic with only "root >= T + %s" (T = '
+                      'last tick of the initial direction): a root at the reversal tick itself '
+                      'belongs to the phase before the reversal and must be discarded'
+                      % (q, rel), fn.loc(), key='calculate_lm::root-after-reversal')
+        n += 1
+        if best is None:
+            undecided.append(repr(t_f)[:80])
+            continue
+        ck.ob('C03-D8-root-positive', 'calculate_lm[%s]::root-at-least-one-tick' % mode, best >= 1,
+              '%s returns a root of the duration quadratic that its path conditions only bound '
+              'by "root >= %s": a duration of %s ticks can be reported for a move that takes '
+              'steps (every accepted root must be tested > 0)' % (q, best, best), fn.loc(),
+              key='calculate_lm::root-positive')
+    ck.floor('paths returning a root of the duration quadratic', n, 1)
+    if undecided and not ck.violations:
+        raise AnalysisError('%s: %d path(s) return a root whose positivity guard was not '
+                            'recognised (%s)' % (q, len(undecided), undecided[0]))
+
+
 def run(ck, prog, tier):
     ck.explanation = (
         'PARTIAL CLAIM - structural necessary conditions of C03 only. calculate_lm is abstractly '
@@ -172,8 +337,15 @@ def run(ck, prog, tier):
         'timed-move predictor reproduces the accumulator modulo 2^31; (D4) with accum="clear" '
         'accum0 follows the same 9-case sign table as C01; (D5) mp.dps>=21 precedes the first '
         'mpmath operation on every path; (D6) moveTimeLM delegates with its swapped positional '
-        'order and accum="clear". NOT decided (no static rule in reach): that the duration is the '
-        'first tick reaching the budget, the position under reversal, accumulator in [0,2^31).')
+        'order and accum="clear"; (D8) the root computation is skipped only for a negative '
+        'discriminant, every accepted root is tested > 0 and, on reversal paths, > the reversal '
+        'tick; (D9) a path that answers "all steps in the initial direction" without a condition '
+        'on the step count lies in the region of (rate, accel) where the rate keeps its sign '
+        'after tick 1 (compared on integer points; this rule found defect F10); (D10) the steps '
+        'made before a reversal are FLOOR(|C(T)|/2^31) with the accumulator polynomial of D3 at '
+        'the reversal tick. NOT decided (no static rule in reach): that the chosen root is the '
+        '*first* tick reaching the budget when the accumulator lands exactly on a step boundary, '
+        'and accumulator in [0,2^31) there.')
     ck.assumptions += ['inputs are integers', 'mpmath rounds correctly to the configured precision',
                        'duration minimality / root selection is outside this check']
     ck.trusted += ['python ast module', 'vf.poly normal forms', 'vf.interp']
@@ -355,6 +527,8 @@ def run(ck, prog, tier):
     ck.floor('constant-rate computing paths', n_const[0], 4)
     check_root_guard(ck, fn, main_paths)
     check_reversal_classification(ck, fn, main_paths)
+    check_root_positive(ck, fn, main_paths)
+    check_steps_before_reversal(ck, fn, main_paths)
     n_paths, n_ops = motion.check_precision(ck, 'C03-D5-precision', fn, all_out)
     ck.floor('calculate_lm mpmath operations', n_ops, 10)
     n_div = motion.check_float_division(ck, 'C03-D5-float-division', fn)
